@@ -157,6 +157,8 @@ int vs_once(pthread_once_t *c, void (*f)(void)) {
 #include <sys/uio.h>
 ssize_t vs_write(int fd, const void *b, size_t n) { int t = vs_tid; if (t >= 0 && active) point(t, VS_USER, (void *)1); return write(fd, b, n); }
 ssize_t vs_writev(int fd, const struct iovec *iov, int c) { int t = vs_tid; if (t >= 0 && active) point(t, VS_USER, (void *)2); return writev(fd, iov, c); }
+/* a scheduling point on behalf of code outside this file (native/nonreentrant.c) */
+void vs_point_user(long code) { int t = vs_tid; if (t >= 0 && active) point(t, VS_USER, (void *)code); }
 /* a close() issued by the library that fails with EBADF closed something that was not (any longer) open: the second half of a double close
    - or the victim of another thread's double close, whose first half had freed the number for reuse */
 static int bad_closes;
